@@ -104,7 +104,10 @@ func (m *Machine) repInvariants(n *Node) {
 			m.DeclareRange(n.JK, big.NewInt(0), big.NewInt(maxK))
 		}
 	}
-	if needInt && tm.IntAbsLimit != nil {
+	if needInt && tm.IntExactFloat {
+		two53 := new(big.Int).Lsh(big.NewInt(1), 53)
+		m.AddBase(c.Or(c.InRange(n.IVal, new(big.Int).Neg(two53), two53), c.Eq(c.Mod(n.IVal, c.Int(2048)), c.Int(0))))
+	} else if needInt && tm.IntAbsLimit != nil {
 		m.AddBase(c.InRange(n.IVal, new(big.Int).Neg(tm.IntAbsLimit), tm.IntAbsLimit))
 	}
 	for _, r := range tm.NumReps {
@@ -145,7 +148,7 @@ func (n *Node) TypedContainer() *smt.Term {
 }
 
 // childRepInvariants constrains the children of typed containers: all elements share
-// the Go type of the first one, are not null, and carry no wrappers.
+// the Go type of the first one (including its pointer layer, if any) and are not null.
 func (m *Machine) childRepInvariants(parent, child, first *Node, tag int) {
 	c := m.Ctx
 	if parent.CRep.Op == smt.OpConst {
@@ -153,11 +156,17 @@ func (m *Machine) childRepInvariants(parent, child, first *Node, tag int) {
 	}
 	typed := c.And(parent.TagIs(tag), c.Eq(parent.CRep, c.Int(CRepTyped)))
 	if child == first {
-		m.AddBase(c.Implies(typed, c.And(c.Not(child.TagIs(TagNull)), c.Eq(child.Wrap, c.Int(0)),
-			c.Or(c.Eq(child.CRep, c.Int(0)), child.TagIs(TagString)))))
+		// element type: T or *T (one wrapper layer, when the template has wrappers), T a scalar
+		// type, a named string type, or (arrays of) [n]any
+		m.AddBase(c.Implies(typed, c.And(c.Not(child.TagIs(TagNull)),
+			c.Or(c.Eq(child.CRep, c.Int(0)), child.TagIs(TagString), c.And(child.TagIs(TagArray), c.Eq(child.CRep, c.Int(CRepAlt)))))))
 		return
 	}
-	m.AddBase(c.Implies(typed, c.And(c.Eq(child.Tag, first.Tag), c.Eq(child.Rep, first.Rep), c.Eq(child.CRep, first.CRep), c.Eq(child.Wrap, c.Int(0)))))
+	same := []*smt.Term{c.Eq(child.Tag, first.Tag), c.Eq(child.Rep, first.Rep), c.Eq(child.CRep, first.CRep), c.Eq(child.Wrap, first.Wrap)}
+	if first.Len != nil && child.Len != nil {
+		same = append(same, c.Implies(c.And(first.TagIs(TagArray), c.Eq(first.CRep, c.Int(CRepAlt))), c.Eq(child.Len, first.Len)))
+	}
+	m.AddBase(c.Implies(typed, c.And(same...)))
 }
 
 // numValue returns the mathematical value and integrality of the node's number.
